@@ -12,13 +12,16 @@ PROPERTY = "C15"
 RULE = ("histories: one generated output per case (3-D Hilbert at 70%, 3-9 CPUs, particles and sinks, >=2 refined levels, "
         "levelmin 3 at 50% so that CPU pre-selection really restricts) and a Hypothesis list of 2-6 load() calls with "
         "arguments drawn from: no arguments, group lists / strings, {group: False}, variable lists, value / position "
-        "(restricting) / level predicates and combinations, cpu_list, sortby.  Oracle (differential against fresh "
+        "(restricting) / level predicates and combinations, cpu_list, sortby (mesh, part or sink keys), and repeats of an earlier call "
+        "with the same argument objects.  Oracle (differential against fresh "
         "executions): after each call every group the call produced equals the group a fresh RamsesDataset returns "
         "for the same arguments (keys, values bitwise, units), groups not produced by this call are unchanged, the key "
         "set is the union, meta ncells/nparticles equal the fresh load's for produced groups.  non-trivial = a "
         "positionally restricting or cpu_list call followed by a call that does not initialise the mesh readers, or a "
         "level-capped call followed by an uncapped one; the generator weights these orders.")
-ASSUMPTIONS = ["a fresh RamsesDataset on the same files is the reference for each call (the files are decided by C01-C14)"]
+ASSUMPTIONS = ["a fresh RamsesDataset on the same files is the reference for each call (the files are decided by C01-C14)",
+               "the fresh dataset gets argument objects of its own; half of the histories end by handing the very objects of an "
+               "earlier call to load() again: what an earlier load() did to them is then an influence of that earlier call"]
 osyris = None
 
 
@@ -33,7 +36,8 @@ def call_st(draw, case):
                                  "cpu_list", "cpu_list", "sortby", "combo"]))
     mesh_names = ["level", "cpu", "dx"] + [f"position_{c}" for c in "xyz"[: case["ndim"]]] + case["hydro_vars"]
     part_names = [n for n, _ in case["part_desc"]]
-    extra_sort = draw(st.sampled_from([None, None, None, {"mesh": "density"}, {"part": "P0"}, {"mesh": "density", "part": "P0"}]))
+    extra_sort = draw(st.sampled_from([None, None, None, {"mesh": "density"}, {"part": "P0"}, {"mesh": "density", "part": "P0"},
+                                       {"sink": "id"}]))
     if kind == "plain":
         return {"k": "plain", "sortby": extra_sort}
     if kind == "groups":
@@ -61,7 +65,7 @@ def call_st(draw, case):
     if kind == "cpu_list":
         return {"k": "cpu_list", "v": draw(st.lists(st.integers(1, case["ncpu"]), min_size=1, max_size=3, unique=True))}
     if kind == "sortby":
-        return {"k": "sortby", "group": draw(st.sampled_from(["part", "mesh"]))}
+        return {"k": "sortby", "group": draw(st.sampled_from(["part", "mesh", "sink"]))}
     return {"k": "pred", "spec": {"pos": draw(rs.pos_preds(case["ndim"], case["levelmax"], around_leaf="leaf")),
                                   "level": draw(rs.level_preds(case["levelmax"]))}, "allaxes": True,
             "with_off": draw(st.sampled_from([None, "part"]))}
@@ -94,9 +98,18 @@ def case_st(draw):
     if draw(st.integers(0, 9)) < 4:
         follow = draw(st.sampled_from([{"k": "groups", "v": ["mesh"]}, {"k": "groups", "v": ["mesh", "part"]},
                                        {"k": "plain"}, {"k": "vars", "v": {"mesh": ["density", "level", "dx"]}},
-                                       {"k": "cpu_list", "v": [1, 2]}, {"k": "off", "v": ["part"]}]))
+                                       {"k": "cpu_list", "v": [1, 2]}, {"k": "off", "v": ["part"]},
+                                       # a dict-style mesh selection without a level key
+                                       {"k": "pred", "spec": {"val": {"var": "density", "op": ">", "qf": 0.05}}},
+                                       {"k": "pred", "spec": {"pos": dict(draw(rs.pos_preds(case["ndim"], case["levelmax"],
+                                                                                          around_leaf="leaf")), rel=8.0,
+                                                                          centred=True)}, "allaxes": True}]))
         calls = calls[:4] + [{"k": "pred", "spec": {"level": {"t": "le", "k": draw(st.integers(1, max(case["levelmax"] - 1, 1)))}}},
                              follow]
+    # the same argument objects handed to load() a second time (define the selection once, load again)
+    if draw(st.integers(0, 9)) < 5:
+        j = draw(st.integers(0, len(calls) - 1))
+        calls = calls + [{"k": "repeat", "of": j}]
     case["calls"] = calls
     return case
 
@@ -143,7 +156,7 @@ def _kwargs(call, m, exp_all):
     if k == "cpu_list":
         return {"cpu_list": list(call["v"])}
     if k == "sortby":
-        key = "density" if call["group"] == "mesh" else None
+        key = "density" if call["group"] == "mesh" else ("id" if call["group"] == "sink" else None)
         if call["group"] == "part":
             sc, _ = rc.merged_names([n for n, _ in m.part_desc], m.ndim)
             key = sc[0] if sc else None
@@ -205,15 +218,25 @@ def history(case, r):
         restricted_before = False
         capped_before = False
         r.label(f"ndim_{case['ndim']}")
+        kws = []
         for i, call in enumerate(case["calls"]):
             where = f"call {i} {call['k']}"
             try:
-                kw = _kwargs(call, m, exp_all)
+                if call["k"] == "repeat":
+                    # the very objects an earlier call was given; the fresh dataset gets newly built equal ones
+                    kw = kws[call["of"]]
+                    call = case["calls"][call["of"]]
+                    where += f" (arguments of call {case['calls'][i]['of']} reused: {call['k']})"
+                    r.label("argument_objects_reused")
+                else:
+                    kw = _kwargs(call, m, exp_all)
+                kws.append(kw)
             except Exception as e:
                 raise RuntimeError(f"harness could not build arguments for {call}: {e!r}")
-            # fresh execution
+            # fresh execution, with argument objects of its own (what load() does to the caller's dicts is not the
+            # subject here: the used dataset gets untouched ones)
             try:
-                fresh, fout = rc.quiet_load(osyris, nout, path, **kw)
+                fresh, fout = rc.quiet_load(osyris, nout, path, **_kwargs(call, m, exp_all))
                 fexc = None
             except Exception as e:
                 fresh, fexc = None, e
